@@ -274,7 +274,7 @@ var blockMuts = []mutInfo{
 	{"Block.Evidence", "bound"}, {"Block.Evidence+EvidenceHash+BlockID.Hash", "bound"},
 	{"Block.LastCommit.Signatures", "bound"}, {"Block.LastCommit.Signatures+LastCommitHash+BlockID.Hash", "bound"},
 	{"Block.LastCommit.Round", "free"}, {"Block.LastCommit.BlockID", "free"}, {"Block:nil", "bound"},
-	{"Block:other-height", "other"}, {"BlockID.Hash:short", "bound"}, {"BlockID.PartSetHeader.Hash:short", "bound"},
+	{"Block:other-height", "request"}, {"BlockID.Hash:short", "bound"}, {"BlockID.PartSetHeader.Hash:short", "bound"},
 }
 
 func mutBlock(c *chain, res *ctypes.ResultBlock, mut string, k int) {
@@ -419,7 +419,7 @@ var bcMuts = []mutInfo{
 	{"LastHeight", "free"}, {"BlockMeta.BlockID.Hash", "bound"}, {"BlockMeta.BlockID.PartSetHeader", "bound"},
 	{"BlockMeta.Header.AppHash", "bound"}, {"BlockMeta.Header.AppHash+BlockID.Hash", "bound"},
 	{"BlockMeta.Header.Height+BlockID.Hash", "bound"},
-	{"BlockMeta.BlockSize", "free"}, {"BlockMeta.NumTxs", "free"}, {"BlockMeta:nil", "bound"},
+	{"BlockMeta.BlockSize", "free"}, {"BlockMeta.NumTxs", "free"}, {"BlockMeta:nil", "bound"}, {"BlockMetas:other-range", "request"},
 }
 
 func mutBcInfo(c *chain, res *ctypes.ResultBlockchainInfo, mut string, k int) {
@@ -428,6 +428,13 @@ func mutBcInfo(c *chain, res *ctypes.ResultBlockchainInfo, mut string, k int) {
 	}
 	if mut == "LastHeight" {
 		res.LastHeight += int64(1 + k%3)
+		return
+	}
+	if mut == "BlockMetas:other-range" { // genuine metas, but of other heights than asked
+		a := int64(1 + k%c.spec.n)
+		if hon, err := core.BlockchainInfo(rctx, a, a+int64(k%2)); err == nil {
+			roundTrip(hon, res)
+		}
 		return
 	}
 	if len(res.BlockMetas) == 0 {
@@ -547,13 +554,18 @@ func mutTx(c *chain, res *ctypes.ResultTx, mut string, k int) {
 var paramMuts = []mutInfo{
 	{"BlockHeight", "bound"}, {"Block.MaxBytes", "bound"}, {"Block.MaxGas", "bound"}, {"Block.MaxBytes:zero", "bound"},
 	{"Block.TimeIotaMs", "free"}, {"Evidence.MaxAgeNumBlocks", "free"}, {"Evidence.MaxBytes", "free"},
-	{"Validator.PubKeyTypes", "free"}, {"Validator.PubKeyTypes:unknown", "free"}, {"Version.AppVersion", "free"},
+	{"Validator.PubKeyTypes", "free"}, {"Validator.PubKeyTypes:unknown", "free"}, {"Version.AppVersion", "free"}, {"Answer:other-height", "request"},
 }
 
 func mutParams(c *chain, res *ctypes.ResultConsensusParams, mut string, k int) {
 	p := &res.ConsensusParams
 	switch mut {
 	case "none", "":
+	case "Answer:other-height": // the genuine parameters of another height
+		h := int64(1 + k%c.spec.n)
+		if cp, err := c.stateStore.LoadConsensusParams(h); err == nil {
+			res.BlockHeight, res.ConsensusParams = h, cp
+		}
 	case "BlockHeight":
 		if k%2 == 0 && res.BlockHeight > 1 {
 			res.BlockHeight--
@@ -650,7 +662,7 @@ var abciMuts = []mutInfo{
 	{"Code", "free"}, {"Key", "bound"}, {"Key:empty", "bound"}, {"Value", "bound"}, {"Value:nil", "bound"}, {"Value:empty", "bound"},
 	{"Height", "bound"}, {"Height:zero", "bound"}, {"ProofOps:nil", "proof"}, {"ProofOps:drop-op", "proof"}, {"ProofOps.Key", "proof"},
 	{"ProofOps.Type", "proof"}, {"ProofOps.Data", "proof"}, {"ProofOps:swap", "proof"}, {"Value+ProofOps", "bound"},
-	{"Log", "free"}, {"Info", "free"}, {"Index", "free"}, {"Codespace", "free"}, {"Key+Value+ProofOps:other-key", "other"}, {"Value+ProofOps:degenerate-prefix", "bound"}, {"Value+ProofOps:keyless-prefix", "bound"}, {"Answer:from-store-path", "other"},
+	{"Log", "free"}, {"Info", "free"}, {"Index", "free"}, {"Codespace", "free"}, {"Key+Value+ProofOps:other-key", "request"}, {"Answer:other-height", "request"}, {"Value+ProofOps:degenerate-prefix", "bound"}, {"Value+ProofOps:keyless-prefix", "bound"}, {"Answer:from-store-path", "other"},
 }
 
 func mutABCI(c *chain, res *ctypes.ResultABCIQuery, mut string, k int) {
@@ -774,6 +786,14 @@ func mutABCI(c *chain, res *ctypes.ResultABCIQuery, mut string, k int) {
 		evil := merkle.NewValueOp(nil, &merkle.Proof{Total: 1, Index: 0, LeafHash: lh}).ProofOp()
 		r.Value = fake
 		r.ProofOps.Ops = append([]tmcrypto.ProofOp{evil}, r.ProofOps.Ops...)
+	case "Answer:other-height": // the genuine proven answer for the same key at another height
+		if r.ProofOps == nil || len(r.ProofOps.Ops) != 2 {
+			return
+		}
+		h := int64(1 + k%c.spec.n)
+		if hon, err := core.ABCIQuery(rctx, "/store/"+string(r.ProofOps.Ops[1].Key)+"/key", r.Key, h, true); err == nil {
+			roundTrip(hon, res)
+		}
 	case "Answer:from-store-path": // a genuine proven answer, whatever path was asked
 		if hon, err := core.ABCIQuery(rctx, "/store/acc/key", []byte("genesis"), int64(1+k%c.spec.n), true); err == nil {
 			roundTrip(hon, res)
